@@ -61,6 +61,12 @@ PROPS = {
     'C09': dict(suites=[('aof', [])], column='dur', clscol='dcls', relevant=lambda r: 'C09' in r['f'].get('own', ''), title='Log rewrite transparent and crash-atomic'),
     'C18': dict(suites=[('pubsub', [])], column='ps', clscol='scls', relevant=lambda r: True, title='Pub/Sub'),
     'C17': dict(suites=[('zset', [])], column='kv', relevant=lambda r: r['name'] in ZSET_CMDS, title='Sorted-set commands'),
+    'C08': dict(suites=[('evict', [])], column='ev', clscol='ecls', relevant=lambda r: True, title='Max-memory policy',
+                assumptions=['schedule: every asynchronous cache update completes before the next keyspace primitive of the same command (forced through verifhook points); per-database adjustMemoryUsage goroutines serialised, every order of them tried by the driver',
+                             'heap stamps are wall-clock milliseconds: compared up to order, with every split of consecutive readings into equal/later tried',
+                             'usage = the figure the server accounts (memUsed); its agreement with the dataset is C19',
+                             'random policies: victims read off the observed survivors and checked for admissibility; MSET of several keys under a limit skipped (map order)',
+                             'a command is declared hung after 2.5 s of non-GC process CPU or 4000 scheduler polls without progress; background panics are observed as the death of a child process']),
     'C19': dict(suites=ALL_DATA, column='mem', clscol='mcls', relevant=lambda r: True, title='Memory figure is a function of the dataset'),
     'C20': dict(suites=ALL_DATA, column='iso', relevant=lambda r: True, title='Logical databases are isolated'),
 }
@@ -317,6 +323,18 @@ def run_suite(cx, work, suite, args, seed, tier, replay=None):
                 name = 'glob'
             rows.append(dict(seq=seq, now=0, db=0, cmd=cmd, kind=kind, payload=payload, pre='', post='', name=name,
                              model=m[0], detail=m[1], f=m[2], suite=suite, line=l[0]))
+        elif l.startswith('V '):
+            w = l.rstrip('\n').split(' ')
+            i = w.index('C')
+            argc = int(w[i + 1])
+            cmd = [unx(x) for x in w[i + 2:i + 2 + argc]]
+            sidx = w.index('S', i + 2 + argc)
+            ridx = len(w) - 1 - w[::-1].index('R')
+            eidx = len(w) - 1 - w[::-1].index('E')
+            m = verd.get(w[1], ('?', 'no verdict', {}))
+            rows.append(dict(seq=w[1], now=int(w[2]), db=int(w[3]), cmd=cmd, kind=w[ridx + 1], payload=unx(w[ridx + 2]),
+                             pre=' '.join(w[sidx + 1:ridx]), post=' '.join(w[eidx + 1:]), name=(cmd[0].decode('latin1').lower() if cmd else ''),
+                             model=m[0], detail=m[1], f=dict(m[2], shape=w[6] + ':' + w[5]), suite=suite))
         elif l.startswith('T '):
             t = parse_tline(l.rstrip('\n'))
             m = verd.get(t['seq'], ('?', 'no verdict', {}))
@@ -634,7 +652,7 @@ def decide(cx, prop, tier, seed, t_start):
     except Exception:
         _meta = {}
     ev = dict(property_id=prop, tier=tier, seed=seed, level=level, coverage=cov,
-              assumptions=([_meta['note']] if _meta.get('note') else []) + ['float64 modelled as exact decimals on the ≤15-digit / dyadic domain; transitions outside are skipped and counted in model_skips',
+              assumptions=(spec.get('assumptions') or []) + ([_meta['note']] if _meta.get('note') else []) + ['float64 modelled as exact decimals on the ≤15-digit / dyadic domain; transitions outside are skipped and counted in model_skips',
                            'Go map iteration order and goroutine scheduling below the keyspace primitives are not exercised by this suite',
                            'virtual clock at millisecond granularity'],
               wall_s=round(time.time() - t_start, 2), violations=len(violations))
